@@ -26,7 +26,33 @@ def fs_key(t):
     return str(t)
 
 
+def _isneg(t):
+    return t[0] == "fn" and t[1] == "neg"
+
+
+def mkneg(t):
+    # negation is exact and an involution
+    if _isneg(t):
+        return t[2]
+    if t[0] == "c":
+        return ("c", -t[1])
+    return ("fn", "neg", t)
+
+
 def mk(op, l, r):
+    # sign symmetry of IEEE multiplication/division, commutativity of * and +: all exact
+    if op in ("mul", "div") and (_isneg(l) or _isneg(r)):
+        sign = _isneg(l) != _isneg(r)
+        inner = mk(op, l[2] if _isneg(l) else l, r[2] if _isneg(r) else r)
+        return mkneg(inner) if sign else inner
+    if op == "add" and _isneg(r):
+        return mk("sub", l, r[2])
+    if op == "add" and _isneg(l):
+        return mk("sub", r, l[2])
+    if op == "sub" and _isneg(r):
+        return mk("add", l, r[2])
+    if op in ("mul", "add") and l[0] != "c" and r[0] != "c" and fs_key(r) < fs_key(l):
+        l, r = r, l
     lc = l[1] if l[0] == "c" else None
     rc = r[1] if r[0] == "c" else None
     if lc is not None and rc is not None and abs(lc) <= 2 and abs(rc) <= 2 and lc.denominator == 1 and rc.denominator == 1:
@@ -132,7 +158,7 @@ class FS:
         if t is not None:
             return t
         # derived local of the enclosing function: inline its defining expression
-        par = cl.func.parent
+        par = cl.func if isinstance(cl, _Shim) else cl.func.parent
         if par is not None and not par.is_lambda:
             defs = [s for s in ast.walk(par.node) if isinstance(s, ast.Assign) and len(s.targets) == 1 and isinstance(s.targets[0], ast.Name) and s.targets[0].id == name]
             if len(defs) == 1:
@@ -156,7 +182,7 @@ class FS:
         if isinstance(n, ast.BinOp) and type(n.op) in OPS:
             return mk(OPS[type(n.op)], self.expr(n.left, env, cl), self.expr(n.right, env, cl))
         if isinstance(n, ast.UnaryOp) and isinstance(n.op, ast.USub):
-            return mk("sub", ZERO, self.expr(n.operand, env, cl)) if False else ("fn", "neg", self.expr(n.operand, env, cl))
+            return mkneg(self.expr(n.operand, env, cl))
         if isinstance(n, ast.UnaryOp) and isinstance(n.op, ast.UAdd):
             return self.expr(n.operand, env, cl)
         if isinstance(n, ast.Call):
